@@ -861,11 +861,26 @@ class _FoldConst(ast.NodeTransformer):
 def _unroll_const_loops(fn, seqs):
     """`for NAME in ('a', 'b', ...): body` (a literal tuple/list of string constants, or the fields of a module-level
     namedtuple) is the body repeated with NAME replaced by each constant."""
-    def seq_of(it):
-        if isinstance(it, (ast.Tuple, ast.List)) and it.elts and all(isinstance(e, ast.Constant) and isinstance(e.value, str) for e in it.elts):
-            return [e.value for e in it.elts]
-        if isinstance(it, ast.Attribute) and isinstance(it.value, ast.Name) and (it.value.id + '.' + it.attr) in seqs:
-            return seqs[it.value.id + '.' + it.attr]
+    def simple(e):
+        return isinstance(e, ast.Constant) or (isinstance(e, ast.Attribute) and simple(e.value)) or isinstance(e, ast.Name) \
+            or (isinstance(e, ast.UnaryOp) and simple(e.operand))
+
+    def seq_of(it, target):
+        """list of {target name: AST value} environments, one per iteration, or None"""
+        if isinstance(target, ast.Name):
+            if isinstance(it, (ast.Tuple, ast.List)) and it.elts and all(isinstance(e, ast.Constant) and isinstance(e.value, str) for e in it.elts):
+                return [{target.id: e} for e in it.elts]
+            if isinstance(it, ast.Attribute) and isinstance(it.value, ast.Name) and (it.value.id + '.' + it.attr) in seqs:
+                return [{target.id: ast.Constant(value=v)} for v in seqs[it.value.id + '.' + it.attr]]
+        if isinstance(target, ast.Tuple) and all(isinstance(t, ast.Name) for t in target.elts) and isinstance(it, (ast.Tuple, ast.List)) and it.elts:
+            # for a, b in (('x', 1), ('y', np.nan)): rows of constants / module attributes
+            rows = []
+            for row in it.elts:
+                if not (isinstance(row, (ast.Tuple, ast.List)) and len(row.elts) == len(target.elts) and all(simple(e) for e in row.elts)
+                        and any(isinstance(e, ast.Constant) and isinstance(e.value, str) for e in row.elts)):
+                    return None
+                rows.append({t.id: e for t, e in zip(target.elts, row.elts)})
+            return rows
         return None
 
     def walk(stmts):
@@ -877,14 +892,15 @@ def _unroll_const_loops(fn, seqs):
             if isinstance(st, ast.Try):
                 for h in st.handlers:
                     h.body = walk(h.body)
-            if isinstance(st, ast.For) and not st.orelse and isinstance(st.target, ast.Name):
-                vals = seq_of(st.iter)
+            if isinstance(st, ast.For) and not st.orelse and isinstance(st.target, (ast.Name, ast.Tuple)):
+                vals = seq_of(st.iter, st.target)
+                tnames = {n.id for n in ast.walk(st.target) if isinstance(n, ast.Name)}
                 body_ok = vals is not None and len(vals) <= 40 and not _has(ast.Module(body=st.body, type_ignores=[]), (ast.Break, ast.Continue)) \
-                    and st.target.id not in _stored_names(st.body)
+                    and not (tnames & _stored_names(st.body))
                 if body_ok:
                     for v in vals:
                         for b in st.body:
-                            nb = _Subst({st.target.id: ast.Constant(value=v)}).visit(copy.deepcopy(b))
+                            nb = _Subst({k_: copy.deepcopy(e_) for k_, e_ in v.items()}).visit(copy.deepcopy(b))
                             nb = _FoldConst().visit(nb)
                             for n in ast.walk(nb):
                                 if hasattr(n, 'lineno'):
